@@ -1,4 +1,5 @@
 import IpcModel.Lemmas.AsyncProof
+import IpcModel.GenAsync
 /-!
 # C20 — a receiver turned into an async stream yields the same messages, then ends
 
@@ -59,5 +60,13 @@ def drainOne (st : St) : St := match st.pending with
   | [] => st
   | p :: rest => { st with senders := st.senders ++ [(st.nextId, p)], nextId := st.nextId + 1, pending := rest }
 example : (drainOne ([Act.offer, .offer].foldl act ⟨[], 1, [], []⟩)).pending = [1] := by decide
+
+/-- **C20_shape** — what the model's routing iteration assumes about the routing thread, regenerated from `src/asynch.rs`: the loop
+body is exactly "handle every result of the select batch, then take every pending registration"; a message is forwarded
+to the queue of the route with that id (a wake-up has none); a closure removes the route, which drops the queue's sender
+and ends the stream; `to_stream` queues the registration before it wakes the routing thread; `poll_next` passes the queue's
+answer through. -/
+theorem C20_shape : Gen.shape_asyncEveryResult = true ∧ Gen.shape_asyncForward = true ∧ Gen.shape_asyncClosedRemoves = true ∧
+    Gen.shape_asyncRegistersAll = true ∧ Gen.shape_toStreamRegistersThenWakes = true ∧ Gen.shape_pollNextPassesThrough = true := by decide
 
 end C20
